@@ -157,6 +157,7 @@ type Sched struct {
 	objSeq   int
 	rngState uint64
 	keep     []interface{}
+	used     [4]int // deviations taken so far, by kind
 	objs     map[unsafe.Pointer]*objState
 	gvc      vclock
 	fp       [2]uint64
@@ -584,6 +585,7 @@ func (s *Sched) schedule() *Thread {
 				}
 				cp.Taken = idx
 				s.trace = append(s.trace, cp)
+				s.used[cp.Costs[idx]]++
 			}
 		}
 		if hasTimerAlt && idx == n-1 {
@@ -613,7 +615,10 @@ func (s *Sched) apply(tr transition) {
 	if s.cfg.LogEvents {
 		s.out.EventLog = append(s.out.EventLog, fmt.Sprintf("%d@%v %s[%d] %s case=%d", s.steps, s.clock, tr.t.Name, tr.t.ID, op.desc, tr.caseIdx))
 	}
-	op.resCase = tr.caseIdx
+	if op.kind != opReady || !op.resRdv {
+		// (a rendezvous partner resumed later keeps the case index the rendezvous gave it)
+		op.resCase = tr.caseIdx
+	}
 	tr.t.obs = mix(tr.t.obs+0x51ED, uint64(tr.caseIdx+3)) // every step advances the thread's local state
 	if tr.partner != nil {
 		tr.partner.obs = mix(tr.partner.obs+0x51ED, uint64(tr.partCase+3))
@@ -727,6 +732,10 @@ func Choose(n int, kind CostKind) int {
 	}
 	cp.Taken = idx
 	s.trace = append(s.trace, cp)
+	s.used[kind] += btoi(idx != 0)
+	if s.cfg.LogEvents {
+		s.out.EventLog = append(s.out.EventLog, fmt.Sprintf("%d@%v %s[%d] choose %d of %d", s.steps, s.clock, s.cur.Name, s.cur.ID, idx, n))
+	}
 	s.event(s.cur, nil, false, 0x100+uint64(idx))
 	return idx
 }
@@ -832,3 +841,19 @@ func Rand64() uint64 {
 var fallbackRng uint64 = 1
 
 var observeObj, rngObj byte
+
+
+func btoi(b bool) int {
+	if b {
+		return 1
+	}
+	return 0
+}
+
+// Deviations returns how many costed alternatives of each kind this execution has taken so far.
+func Deviations() (p, d, f int) {
+	if S == nil {
+		return
+	}
+	return S.used[CostP], S.used[CostD], S.used[CostF]
+}
